@@ -157,6 +157,11 @@ func (o *Overlay) TransmitMsg(onetMsg *ProtocolMsg, io MessageProxy) error {
 	o.instancesLock.Unlock()
 	if done {
 		log.Lvl5("Message for TreeNodeInstance that is already finished")
+		// the lookup above cancelled a pending removal of the tree:
+		// schedule it again if no instance uses the tree anymore
+		o.instancesLock.Lock()
+		o.cleanTreeStorage(onetMsg.To)
+		o.instancesLock.Unlock()
 		return nil
 	}
 	// if the TreeNodeInstance is not there, creates it
